@@ -29,6 +29,18 @@ def main(tier):
     ops = build_cases(tier)
     payload = [dict(schema=corpus.SCHEMA_K, doc_text=o.doc_text, op_name=o.name, uses_var=o.uses_var, options={}, checks=["c05"],
                     bound=1 if tier == "quick" else 2, max_runs=200 if tier == "quick" else 600) for o in ops]
+    # configured custom scalar (pydantic-native type): must be exactly as strict as the type, also inside fragment classes
+    conf = [o for o in ops if "blob" in o.text or "FCamel" in o.text or "wrapper" in o.tags and False]
+    conf += [corpus.build_op(f"Conf{i}", pos, pt, tag, items) for i, (pos, pt, tag, items) in enumerate([
+        ("user", "User", "user", [corpus.Item("...FCamel", {"spread"}, {"FCamel"})]),
+        ("user", "User", "user", [corpus.Item("friend { ...FCamel }", {"composite_field"}, {"FCamel"})]),
+        ("node", "Node", "node", [corpus.Item("... on User { blob ...FCamel }", {"inline"}, {"FCamel"})]),
+        ("user", "User", "user", [corpus.Item("blob", {"field"}), corpus.Item("friends { blob }", {"composite_field"})]),
+    ])]
+    nplain = len(ops)
+    ops = ops + conf
+    payload += [dict(schema=corpus.SCHEMA_K, doc_text=o.doc_text, op_name=o.name, uses_var=o.uses_var, options={"scalars": {"Blob": {"type": "int"}}}, checks=["c05"],
+                     configured_scalars={"Blob": "int"}, scalar_values={"Blob": 5}, bound=1, max_runs=100) for o in conf]
     results = pool.run_cases(opcheck.evaluate_op, payload, timeout=600, progress=500)
     stats = dict(operations=len(ops), invalid_ops=0, skipped_generation_failures=0, responses=0, corruptions=0, annotations=0)
     kinds = set()
